@@ -153,7 +153,7 @@ PROPS = {
              "in-envelope conditions (alpha, beta in [0,0.8], GV weights [0,2], thresholds, half tone +-24, volume +-20 dB, speed [0.25,4], frame-period and "
              "rate overrides), 0..6 labels (consecutive corpus labels or labels with the twelve field groups recombined across the corpus), alignment on with "
              "time stamps on some lines in 30 % of cases. The model is fed the dumped Models::duration()/model_stream(i) and must reproduce durations, the three "
-             "trajectories (hook) and the waveform. class = (voice kind, #streams, stage, alignment/speed, empty/non-empty, #states); "
+             "trajectories (hook) and the waveform; every 8th case is a silence/pause-only utterance. In addition 24 (thorough 400) end-to-end cases drive the Lean model from the voice FILES alone — header defaults, setter history, tree selection with wildcard questions, interpolation of 1..3 voices, durations, MLPG+GV, vocoder — and compare the waveform with Engine::synthesize. class = (voice kind, #streams, stage, alignment/speed, empty/non-empty, #states); "
              "non-trivial = >= 2 labels with both voiced and unvoiced frames",
         theorem_clauses=["waveform length = fperiod x sum of durations", "one duration >= 1 per state (speed and alignment paths), F >= labels x states",
                          "MLPG shape on well-formed streams; the GV switch must cover every state (machine-checked counterexample otherwise)",
